@@ -50,8 +50,20 @@ Definition find_item (items : list item) (ty : string) : option item :=
 (** [unsafe impl Send/Sync]: an iterator that hands out [&K] / [&V] gives the receiving thread a
     shared reference, so the bound must be [Sync]; one that hands out [&mut V] moves exclusive
     access, so [V: Send] (for [Sync]: [V: Sync]); a cache owns its keys and values: [Send] needs
-    both [Send], [Sync] needs both [Sync] *)
+    both [Send], [Sync] needs both [Sync].  Every other type parameter of the impl is something the
+    type owns as well (the hash builder [S], the eviction callback [E]): [Send] needs it [Send];
+    [Sync] needs it [Sync] — the hash builder is used through [&self] by every look-up — except the
+    eviction callback, which is only ever reached through [&mut self] (as the content of a mutex):
+    for it [Send] is enough. *)
+Definition other_ok (k : mkind) (o : string * bool * bool) : bool :=
+  let '(name, sd, sy) := o in
+  match k with
+  | MSend => sd
+  | MSync => sy || (String.eqb name "E" && sd)
+  end.
+
 Definition marker_sound_b (items : list item) (m : marker) : bool :=
+  forallb (other_ok (m_kind m)) (m_others m) &&
   match find_item items (m_type m) with
   | Some i =>
     (implb (i_shares_k i) (m_k_sync m)) && (implb (i_shares_v i) (m_v_sync m)) &&
